@@ -193,7 +193,9 @@ def run(case):
 
     # ---------------- subpath constraints ----------------
     contig, noncontig = fdworld.dag_constraints(paths, 3)
-    for cset in [[c] for c in contig + noncontig] + ([[contig[0], contig[-1]]] if len(contig) >= 2 else []) + ([[contig[0], contig[0]]] if contig else []):
+    all_routes = [pp for pp in pa if len(pp) >= 2]
+    for cset in [[c] for c in contig + noncontig] + ([[contig[0], contig[-1]]] if len(contig) >= 2 else []) + ([[contig[0], contig[0]]] if contig else []) \
+            + ([all_routes] if 2 <= len(all_routes) <= 6 else []):
         cons_sets = [set(i for i, p in enumerate(pa) if all(x in p for x in c)) for c in cset]
         for wt in ("int", "float"):
             opt, _ = O.min_decomp(cols_for(E), fvec, wt, cons_sets)
